@@ -152,6 +152,9 @@ package raft
 //@   ensures [unknown-type-is-ignored] old(op.Type) != LogOpPin && old(op.Type) != LogOpUnpin ==> pinset == old(pinset) && rpcN == old(rpcN)
 //@   ensures [failure-asks-for-rollback] err != nil ==> res == nil && rpcN == old(rpcN)
 //@   ensures [pin-object-untouched] forall p *api.Pin :: *p == old(*p)
+// the FSM decodes the next log entry on top of this same LogOp: the applied pin must be detached from it on
+// every path, or the next entry's omitted fields inherit this pin's values (and the tracker's goroutine races)
+//@   ensures [decoded-pin-detached] op.Cid == nil
 //@   modifies pinset, rpcN, rpcLastSvc, rpcLastMethod, rpcLastArg, heap(LogOp)
 
 // ---- C14: backup rotation on a ghost file system ----
